@@ -2,6 +2,8 @@ import Hls.Muxer.AcceptFront
 /-!
 # C01 helper lemmas, part 11: MPEG-TS — history of finished segments ++ open segment = `acceptedTs` (`ts_main`)
 -/
+set_option linter.unusedSimpArgs false
+set_option linter.unusedVariables false
 namespace Hls.Muxer.Accept
 open Hls.Muxer
 
